@@ -61,7 +61,11 @@ def one(spec):
         sh("git -C /repo archive HEAD | tar -x -C %s" % copy)
         rc, o = sh("git apply %s" % diff, cwd=copy)
         if rc != 0:
-            return name, "diff does not apply: " + o.strip()[:200]
+            # /repo moved since the change was written: apply what still applies
+            rc2, o2 = sh("patch -p1 -F 3 --no-backup-if-mismatch -r /dev/null < %s" % diff, cwd=copy)
+            meta["applied_partially"] = "git apply failed (%s); patch -F3: %s" % (o.strip()[:120], " ".join(o2.split())[-300:])
+            if "succeeded" not in o2 and "patching file" not in o2:
+                return name, "diff does not apply: " + o.strip()[:200]
         fails, build = failing_tests(copy)
         rcb, ob = sh("go build -tags verif ./pkg/... 2>&1", copy)
         meta["existing_tests_unchanged"] = (fails == BASE["fails"]) and not build
